@@ -269,7 +269,7 @@ SPECS.update({
             {"component": "service", "args": ["--focus", "c12"], "quick": 96, "thorough": 1200},
             # the handler half of the property (Handler::verify_enr): real handler, handshakes with records that
             # advertise the observed address, another host, the same host with another port, IPv4 and IPv6 (monitor only)
-            {"component": "hnd", "args": ["--focus", "c12", "--fixes", "all"], "quick": 64, "thorough": 800, "correspondence": False},
+            {"component": "hnd", "args": ["--focus", "c12", "--fixes", "all"], "quick": 64, "thorough": 800},
         ],
         "trusted_base": SVC_TB,
         "assumptions": [
@@ -315,3 +315,7 @@ for _p in ("C01", "C02", "C03", "C04", "C12", "C13", "C15", "C19"):
     SPECS[_p]["ctor_parity"] = SPECS[_p].get("ctor_parity", []) + ["handler"]
 for _p in ("C01", "C09", "C10", "C11", "C12", "C14", "C17", "C20"):
     SPECS[_p]["ctor_parity"] = SPECS[_p].get("ctor_parity", []) + ["service"]
+
+# the handler half of C12 is compared with Model/Handler.v too
+SPECS["C12"]["coq_files"] = SPECS["C12"]["coq_files"] + ["Model/Handler.v", "Run/HandlerRun.v"]
+SPECS["C12"]["runner_vo"] = ["Run/ServiceRun.v", "Run/HandlerRun.v"]
